@@ -45,7 +45,7 @@ structure PackedX5cOK (env : Prog.Env) (o : AttObj) (h : Bytes) (res : Result) :
     c.version = 3 ∧ c.isCA = false ∧ c.country ≠ [] ∧ c.org ≠ [] ∧ c.orgUnit = s "Authenticator Attestation" ∧ c.commonName ≠ [] ∧
     -- id-fido-gen-ce-aaguid, when present, is non-critical and equals the AAGUID of the authenticator data
     (∀ e, findExt c [1, 3, 6, 1, 4, 1, 45724, 1, 1, 4] = some e →
-        e.critical = false ∧ env.answer (.asn1OctetString e.value) = .bytes acd.aaguid ∧ acd.aaguid.length = 16) ∧
+        e.critical = false ∧ KeyDesc.octetStringExact e.value = some acd.aaguid ∧ acd.aaguid.length = 16) ∧
     res = ⟨"Unknown", der :: rest.map (·.1)⟩
 
 /-! packed, self attestation -/
@@ -97,7 +97,7 @@ structure AndroidKeyOK (env : Prog.Env) (o : AttObj) (h : Bytes) (res : Result) 
     CertSigOK env der (getAlgorithm o.stmt) (o.authData ++ h) (getSignature o.stmt) ∧
     -- the certificate key is the credential public key
     c.key ≠ .other ∧ c.key = k.material ∧
-    findExt c [1, 3, 6, 1, 4, 1, 11129, 2, 1, 17] = some e ∧ env.answer (.keyDescription e.value) = .keyDesc kd ∧
+    findExt c [1, 3, 6, 1, 4, 1, 11129, 2, 1, 17] = some e ∧ KeyDesc.view e.value = some kd ∧
     kd.challenge = h ∧
     -- allApplications absent from both lists; TEE list: origin GENERATED, purpose SIGN
     kd.swAllApplications = false ∧ kd.teeAllApplications = false ∧ kd.teeOrigin = 0 ∧ (2 : Int) ∈ kd.teePurpose ∧
@@ -108,7 +108,7 @@ structure AppleOK (env : Prog.Env) (o : AttObj) (h : Bytes) (res : Result) : Pro
   body : ∃ der c rest d acd k e,
     X5c env o.stmt ((der, c) :: rest) ∧ Attested o d acd ∧ CredKey acd k ∧
     findExt c [1, 2, 840, 113635, 100, 8, 2] = some e ∧
-    env.answer (.appleNonce e.value) = .bytes (Spec.sha256 env (o.authData ++ h)) ∧
+    KeyDesc.appleNonce e.value = some (Spec.sha256 env (o.authData ++ h)) ∧
     -- the certificate key is the credential public key
     c.key ≠ .other ∧ c.key = k.material ∧
     res = ⟨"AnonCA", der :: rest.map (·.1)⟩
